@@ -320,7 +320,12 @@ def r2(ctx, r):
             any(x.kind == "stmt" and x.node.get("k") == "throw" for x in _reach_until_ret(f, vis[0].succs[0 if vop == "!=" else 1]))
         r.expect(ok, f, jump[0], "pointer loop", "a compression pointer is followed without the visited-set test and insert: a pointer loop never terminates", okdesc="jump behind not-visited test; target recorded first")
     else:
-        raise AnalysisBroken("decodeNameWithLoopDetection: expected one jump, one range test, one visited test and one insert (found %d/%s/%d/%d) — a shape this rule does not know" % (len(jump), len(rng) if rng is not None else "-", len(vis), len(ins)))
+        if len(jump) == 1 and (len(vis) == 0 or len(ins) == 0):
+            r.fail(f, jump[0], "pointer loop", "a compression pointer is followed without the visited-set %s: a pointer loop never terminates" % ("test" if not vis else "insert"))
+        elif len(jump) == 1 and rng is not None and len(rng) == 0:
+            r.fail(f, jump[0], "pointer range", "the jump to a compression pointer is behind no range test")
+        else:
+            raise AnalysisBroken("decodeNameWithLoopDetection: expected one jump, one range test, one visited test and one insert (found %d/%s/%d/%d) — a shape this rule does not know" % (len(jump), len(rng) if rng is not None else "-", len(vis), len(ins)))
     # the position at which the caller resumes is fixed at the FIRST pointer of the name
     rv = [e for e in common.returns(f)]
     res = None
